@@ -10,6 +10,7 @@ var Scenarios = map[string]func() *Scenario{
 	"C07": C07Scenario,
 	"C08": C08Scenario,
 	"C09": C09Scenario,
+	"C10": C10Scenario,
 	"C11": C11Scenario,
 	"C16": C16Scenario,
 }
